@@ -1,5 +1,5 @@
 CONSTANTS NV = 3  MaxPower = 3  SlotKinds = {"absent","valid"}  Extras = {"none"}
-  QuorumRule = "floor_first"  CountDuplicates = FALSE  DropOnMismatch = TRUE  Part = "commit"
+  QuorumRule = "floor_first"  CountDuplicates = FALSE  DropOnMismatch = TRUE  PowerCap = 1000000  Part = "commit"
 INIT Init
 NEXT Next
 INVARIANTS AcceptOnlyWithQuorum AcceptWellFormedWithQuorum NeverExceedsTotal FirmOnlyIfCommitted DataOnlyIfBound Export
